@@ -231,6 +231,17 @@ func (a *Act) analyse() {
 	// recovered panic; panics are proved unreachable, so the block is ignored.
 }
 
+var debugReachAll bool
+
+func firstPos(b *ssa.BasicBlock) token.Pos {
+	for _, in := range b.Instrs {
+		if p := in.Pos(); p.IsValid() {
+			return p
+		}
+	}
+	return token.NoPos
+}
+
 func isBackEdge(from, to *ssa.BasicBlock) bool { return to.Dominates(from) }
 
 // ---------------------------------------------------------------- running
@@ -260,6 +271,11 @@ func (a *Act) runBlocks(blocks []*ssa.BasicBlock, dryLoop *loopInfo) {
 		a.in[b] = st
 		a.cur = st.clone()
 		a.curBlk = b
+		if debugReachAll && !a.dry && a.mode == modeVerify {
+			if o := a.vc.oblige("reach", fmt.Sprintf("block%d", b.Index), st.reach, "false", "block reachable: "+b.Comment, a.posOf(firstPos(b))); o != nil {
+				o.ExpectSat = true
+			}
+		}
 		for _, in := range b.Instrs {
 			a.instr(in)
 		}
@@ -759,7 +775,7 @@ func zeroTerm(s Sort, vc *VC) string {
 	case SortBool:
 		return "false"
 	case SortSlice:
-		return "nil-slice"
+		return "(mk-slice 0 0 0 0)"
 	case SortStr:
 		return vc.strConst("")
 	case SortFlt:
